@@ -171,6 +171,11 @@ def generate(tier):
         r_ = underscorify(c)
         if r_:
             cases.append(r_)
+        from .common import localsify
+        for sch in (0, 1):
+            r_ = localsify(c, sch)
+            if r_:
+                cases.append(r_)
     for sh in S.struct_shapes(2) + S.enum_shapes(2, 1) + [S.Shape('enum', [S.Fields('t', 2), S.Fields('n', 2)]),
                                                           S.Shape('enum', [S.Fields('u'), S.Fields('t', 2)])]:
         if not sh.positions():
